@@ -477,11 +477,46 @@ Proof.
     exists l'. split; [exact R|]. rewrite rev_app_distr, rev_involutive, <- app_assoc in V'. rewrite (app_assoc (firstn w (b :: body))), firstn_skipn in V'. exact V'.
 Qed.
 
+Lemma eolb_str_rest x t : no_byte 10 x = true -> eolb (x ++ 34 :: t) = false.
+Proof.
+  intros H10. unfold eolb. destruct x as [|c rest].
+  - cbn [app]. rewrite dec1 by lia. reflexivity.
+  - cbn [app]. apply orb_false_intro.
+    + apply N.eqb_neq. intros E10. pose proof (decode_spec (c :: rest ++ 34 :: t)) as D. destruct (decode (c :: rest ++ 34 :: t)) as [r2 w2]. cbn [fst] in E10. subst r2.
+      destruct D as (_ & _ & _ & D10 & _). destruct (D10 eq_refl) as (_ & t0 & E0). injection E0 as -> _. cbn [no_byte forallb N.eqb Pos.eqb negb andb] in H10. discriminate.
+    + cbn [crlf has_prefix]. destruct (13 =? c); [|reflexivity]. cbn [andb]. destruct rest as [|c2 rest]; [reflexivity|].
+      cbn [app has_prefix]. cbn [no_byte forallb] in H10. apply andb_prop in H10. destruct H10 as [_ H10]. apply andb_prop in H10. destruct H10 as [Hc _].
+      rewrite N.eqb_sym. destruct (c2 =? 10); [discriminate|reflexivity].
+Qed.
+
+Lemma skipn_tl {A} w (l : list A) : (0 < w)%nat -> skipn w l = skipn (w - 1) (tl l).
+Proof. intros H. destruct w; [lia|]. destruct l; [rewrite !skipn_nil; reflexivity|]. cbn [skipn tl]. replace (S w - 1)%nat with w by lia. reflexivity. Qed.
+
+(* the first rune after the opening quote is read without a preceding line-end check, so it may even be a LF *)
 Lemma fwd_string l body t o : VP l [34] (body ++ 34 :: t) o -> Str body ->
   exists l', step SString l = (after_string t, l') /\ VP l' [] t ((STRING, b_quote ++ body ++ b_quote) :: o).
 Proof.
   intros HV [H34 H10]. cbn [step]. unfold lexString. pose proof HV as (_ & S0 & _).
-  destruct (string_loop (S (S (length (suf l)))) body l [34] t o HV H34 H10 ltac:(rewrite S0; lia)) as (l' & R & V'). eauto.
+  destruct body as [|b body].
+  - destruct (string_loop (S (S (length (suf l)))) [] l [34] t o HV eq_refl eq_refl ltac:(rewrite S0; lia)) as (l' & R & V'). eauto.
+  - cbn [tl] in H10. cbn [lexStringLoop].
+    destruct (decode ((b :: body) ++ 34 :: t)) as [r w] eqn:Ed.
+    destruct (rune_within (b :: body) (34 :: t) r w ltac:(discriminate) ltac:(right; exists 34, t; split; [reflexivity|lia]) Ed) as [Hw0 Hw].
+    assert (Hr : (r =? 34) = false).
+    { apply N.eqb_neq. intros ->. pose proof (decode_spec ((b :: body) ++ 34 :: t)) as D. rewrite Ed in D. destruct D as (_ & _ & _ & _ & Dlt & _).
+      destruct (Dlt ltac:(lia)) as (_ & t0 & E0). cbn [app] in E0. injection E0 as -> _. cbn [no_byte forallb N.eqb Pos.eqb negb andb] in H34. discriminate. }
+    destruct (next_vp _ _ _ _ r w HV Ed) as (l1 & En & V1). rewrite En, Hr.
+    assert (F : firstn w ((b :: body) ++ 34 :: t) = firstn w (b :: body)) by (rewrite firstn_app; replace (w - length (b :: body))%nat with 0%nat by lia; cbn [firstn]; apply app_nil_r).
+    assert (K : skipn w ((b :: body) ++ 34 :: t) = skipn w (b :: body) ++ 34 :: t) by (rewrite skipn_app; replace (w - length (b :: body))%nat with 0%nat by lia; reflexivity).
+    rewrite F, K in V1. unfold atEOF. pose proof V1 as (_ & S1 & _). rewrite S1.
+    assert (H10' : no_byte 10 (skipn w (b :: body)) = true) by (rewrite (skipn_tl w (b :: body) Hw0); cbn [tl]; apply no_byte_skipn; exact H10).
+    pose proof (no_byte_skipn 34 w _ H34) as H34'.
+    destruct (skipn w (b :: body) ++ 34 :: t) as [|x xs] eqn:Ex; [destruct (skipn w (b :: body)); discriminate|]. rewrite <- Ex in *. clear Ex x xs.
+    destruct (atEOL_vp _ _ _ _ V1) as (l2 & Ee & V2). rewrite Ee, (eolb_str_rest _ t H10').
+    destruct (string_loop (S (length (suf l))) (skipn w (b :: body)) l2 _ t o V2 H34' H10') as (l' & R & V').
+    { rewrite S0. rewrite !app_length. rewrite skipn_length. cbn [length]. lia. }
+    exists l'. split; [exact R|]. rewrite rev_app_distr, rev_involutive in V'. cbn [rev app] in V'. unfold b_quote. cbn [app].
+    rewrite (app_assoc (firstn w (b :: body))), firstn_skipn in V'. exact V'.
 Qed.
 
 (* ---- after ")" ---- *)
@@ -574,10 +609,12 @@ Proof.
   apply (unconsume_inv l d e g 32 p HI Hp). discriminate.
 Qed.
 
-Definition Bdry (R : bytes) : Prop :=
+Definition Bdry0 (R : bytes) : Prop :=
   match R with [] => False | 123 :: _ => False | 125 :: 125 :: _ => False | _ => True end.
+(* what may follow a command: an ASCII byte that does not complete a "{{" / "}}" lookahead *)
+Definition Bdry (R : bytes) : Prop := Bdry0 R /\ exists b R', R = b :: R' /\ b < 128.
 
-Lemma hp_l rest R : Bdry R -> has_prefix k_linterp (rest ++ R) = has_prefix k_linterp rest.
+Lemma hp_l rest R : Bdry0 R -> has_prefix k_linterp (rest ++ R) = has_prefix k_linterp rest.
 Proof.
   intros HB. unfold k_linterp. destruct rest as [|x [|y rest]]; cbn [app has_prefix].
   - destruct R as [|r0 R]; [reflexivity|]. cbn [has_prefix]. destruct (123 =? r0) eqn:E; [|reflexivity]. apply N.eqb_eq in E. subst r0. contradiction.
@@ -585,7 +622,7 @@ Proof.
   - reflexivity.
 Qed.
 
-Lemma hp_r rest R : Bdry R -> (forall x, rest = [x] -> x <> 125) -> has_prefix k_rinterp (rest ++ R) = has_prefix k_rinterp rest.
+Lemma hp_r rest R : Bdry0 R -> (forall x, rest = [x] -> x <> 125) -> has_prefix k_rinterp (rest ++ R) = has_prefix k_rinterp rest.
 Proof.
   intros HB Hx. unfold k_rinterp. destruct rest as [|x [|y rest]]; cbn [app has_prefix].
   - destruct R as [|r0 [|r1 R]]; [reflexivity|cbn [has_prefix]; rewrite andb_false_r; reflexivity|]. cbn [has_prefix].
@@ -594,41 +631,85 @@ Proof.
   - reflexivity.
 Qed.
 
+Lemma inr_lo lo hi b : b < 128 -> 128 <= lo -> inr lo hi b = false.
+Proof. intros H1 H2. unfold inr. assert ((lo <=? b) = false) as -> by lia. reflexivity. Qed.
+
+(* a rune read from text followed by an ASCII byte is the rune read from the text alone *)
+Lemma decode_app_ascii text b t : text <> [] -> b < 128 -> decode (text ++ b :: t) = decode text.
+Proof.
+  intros Hne Hb. unfold decode. destruct text as [|c0 text]; [congruence|]. cbn [app].
+  destruct (c0 <? 128); [reflexivity|]. destruct (c0 <? 194); [reflexivity|].
+  assert (I128 : forall hi, inr 128 hi b = false) by (intros; apply inr_lo; [exact Hb|lia]).
+  destruct (c0 <? 224).
+  { destruct text as [|c1 text]; cbn [app]; [rewrite I128; reflexivity|reflexivity]. }
+  destruct (c0 <? 240).
+  { assert (Ilo : forall hi, inr (if c0 =? 224 then 160 else 128) hi b = false) by (intros; apply inr_lo; [exact Hb|destruct (c0 =? 224); lia]).
+    destruct text as [|c1 [|c2 text]]; cbn [app]; try reflexivity.
+    - destruct t as [|t0 t]; [reflexivity|]. rewrite Ilo. reflexivity.
+    - rewrite I128. destruct (inr _ _ c1); reflexivity. }
+  destruct (c0 <? 245).
+  { assert (Ilo : forall hi, inr (if c0 =? 240 then 144 else 128) hi b = false) by (intros; apply inr_lo; [exact Hb|destruct (c0 =? 240); lia]).
+    destruct text as [|c1 [|c2 [|c3 text]]]; cbn [app]; try reflexivity.
+    - destruct t as [|t0 [|t1 t]]; try reflexivity. rewrite Ilo. reflexivity.
+    - destruct t as [|t0 t]; [reflexivity|]. rewrite I128. destruct (inr _ _ c1); reflexivity.
+    - rewrite I128. destruct (inr _ _ c1); [destruct (inr 128 191 c2)|]; reflexivity. }
+  reflexivity.
+Qed.
+
+Lemma decode_w_pos_l s r w : decode s = (r, w) -> s <> [] -> (0 < w <= length s)%nat.
+Proof.
+  intros Ed Hne. pose proof (decode_spec s) as D. rewrite Ed in D. destruct D as (_ & Dl & D0 & _). split; [|exact Dl].
+  destruct w; [|lia]. destruct D0 as [D0 _]. specialize (D0 eq_refl). congruence.
+Qed.
+
 Lemma scan_fwd : forall f fuel crest l p R o, VP l p (crest ++ R) o -> cmd_scan f crest = true -> Bdry R ->
   (length (crest ++ R) < fuel)%nat ->
   exists fuel' l', lexTaskCommandsLoop fuel l = lexTaskCommandsLoop fuel' l' /\ VP l' (rev crest ++ p) R o /\ (length R < fuel')%nat.
 Proof.
   induction f as [|f IH]; intros fuel crest l p R o HV Hsc HB Hf; [discriminate|].
-  destruct crest as [|b rest]. { exists fuel, l. cbn [rev app] in *. auto. }
-  cbn [cmd_scan] in Hsc. apply andb_prop in Hsc. destruct Hsc as [Hsc Hrest]. apply andb_prop in Hsc. destruct Hsc as [Hsc H125].
-  apply andb_prop in Hsc. destruct Hsc as [Hsc H35]. apply andb_prop in Hsc. destruct Hsc as [Hlt H10].
-  apply N.ltb_lt in Hlt. apply negb_true_iff in H10, H35, H125.
+  destruct crest as [|b0 rest0]. { exists fuel, l. cbn [rev app] in *. auto. }
+  destruct HB as [HB0 (bR & R' & ER & HbR)].
+  cbn [cmd_scan] in Hsc. destruct (decode (b0 :: rest0)) as [r w] eqn:Edc.
+  destruct (decode_w_pos_l (b0 :: rest0) r w Edc ltac:(discriminate)) as [Hw0 Hw].
+  assert (Ed : decode ((b0 :: rest0) ++ R) = (r, w)) by (rewrite ER, decode_app_ascii by (discriminate || exact HbR); exact Edc).
+  set (rest := skipn w (b0 :: rest0)) in *.
+  apply andb_prop in Hsc. destruct Hsc as [H10 Hsc]. apply negb_true_iff in H10.
   destruct fuel as [|fuel]; [lia|]. cbn [lexTaskCommandsLoop].
-  cbn [app] in HV. destruct (next_vp_ascii _ _ _ _ _ HV Hlt) as (l1 & En & V1). rewrite En, H10.
-  pose proof V1 as (_ & S1 & _). rewrite S1.
-  assert (Hx : forall x, rest = [x] -> x <> 125).
-  { intros x -> ->. destruct f as [|f']; [destruct (has_prefix k_linterp [125] || has_prefix k_rinterp [125])%bool; discriminate|].
-    cbn in Hrest. discriminate. }
-  rewrite (hp_l rest R HB), (hp_r rest R HB Hx).
+  destruct (next_vp _ _ _ _ r w HV Ed) as (l1 & En & V1). rewrite En, H10.
+  assert (F : firstn w ((b0 :: rest0) ++ R) = firstn w (b0 :: rest0)) by (rewrite firstn_app; replace (w - length (b0 :: rest0))%nat with 0%nat by lia; cbn [firstn]; apply app_nil_r).
+  assert (K : skipn w ((b0 :: rest0) ++ R) = rest ++ R) by (rewrite skipn_app; replace (w - length (b0 :: rest0))%nat with 0%nat by lia; reflexivity).
+  rewrite F, K in V1. pose proof V1 as (_ & S1 & _). rewrite S1.
+  assert (Hlen : (length rest + w = length (b0 :: rest0))%nat) by (unfold rest; rewrite skipn_length; lia).
+  assert (Hrev : forall x, rev rest ++ rev (firstn w (b0 :: rest0)) ++ x = rev (b0 :: rest0) ++ x).
+  { intros x. rewrite app_assoc, <- rev_app_distr. unfold rest. rewrite firstn_skipn. reflexivity. }
   destruct (has_prefix k_linterp rest || has_prefix k_rinterp rest)%bool eqn:Hp.
   - assert (Hsplit : exists a c, rest = a :: c :: skipn 2 rest /\ nl [a; c] = 0%nat).
     { apply orb_prop in Hp. destruct Hp as [Hp|Hp]; apply has_prefix_split in Hp; cbn [k_linterp k_rinterp length app] in Hp; eexists _, _; (split; [exact Hp|reflexivity]). }
     destruct Hsplit as (a & c & Er & Hnl).
-    assert (V2 : VP (absorb 2 l1) (rev [a; c] ++ b :: p) (skipn 2 rest ++ R) o).
-    { apply (absorb_vp l1 (b :: p) [a; c] (skipn 2 rest ++ R) o); [|exact Hnl]. rewrite Er in V1 at 1. exact V1. }
-    assert (Hgoal : exists fuel' l', lexTaskCommandsLoop fuel (absorb 2 l1) = lexTaskCommandsLoop fuel' l' /\ VP l' (rev (b :: rest) ++ p) R o /\ (length R < fuel')%nat).
-    { destruct (IH fuel (skipn 2 rest) (absorb 2 l1) _ R o V2 Hrest HB) as (fuel' & l' & E' & V' & L').
-      { cbn [app length] in Hf. rewrite app_length in Hf |- *. rewrite skipn_length. lia. }
+    assert (V2 : VP (absorb 2 l1) (rev [a; c] ++ rev (firstn w (b0 :: rest0)) ++ p) (skipn 2 rest ++ R) o).
+    { apply (absorb_vp l1 _ [a; c] (skipn 2 rest ++ R) o); [|exact Hnl]. rewrite Er in V1 at 1. exact V1. }
+    assert (Hgoal : exists fuel' l', lexTaskCommandsLoop fuel (absorb 2 l1) = lexTaskCommandsLoop fuel' l' /\ VP l' (rev (b0 :: rest0) ++ p) R o /\ (length R < fuel')%nat).
+    { destruct (IH fuel (skipn 2 rest) (absorb 2 l1) _ R o V2 Hsc (conj HB0 (ex_intro _ bR (ex_intro _ R' (conj ER HbR))))) as (fuel' & l' & E' & V' & L').
+      { rewrite app_length in Hf |- *. rewrite skipn_length. lia. }
       exists fuel', l'. split; [exact E'|]. split; [|exact L'].
-      replace (rev (b :: rest) ++ p) with (rev (skipn 2 rest) ++ rev [a; c] ++ b :: p); [exact V'|].
-      remember (skipn 2 rest) as tl eqn:Etl. rewrite Er. cbn [rev]. rewrite <- !app_assoc. reflexivity. }
-    destruct (has_prefix k_linterp rest); [exact Hgoal|]. cbn [orb] in Hp. rewrite Hp. exact Hgoal.
-  - apply orb_false_elim in Hp. destruct Hp as [-> ->]. rewrite H125.
+      replace (rev (b0 :: rest0) ++ p) with (rev (skipn 2 rest) ++ rev [a; c] ++ rev (firstn w (b0 :: rest0)) ++ p); [exact V'|].
+      rewrite <- Hrev. remember (skipn 2 rest) as tl2 eqn:Etl. rewrite Er. cbn [rev]. rewrite <- !app_assoc. reflexivity. }
+    assert (Hor : (has_prefix k_linterp (rest ++ R) = true) \/ (has_prefix k_linterp (rest ++ R) = false /\ has_prefix k_rinterp (rest ++ R) = true)).
+    { destruct (has_prefix k_linterp rest) eqn:Hl.
+      - left. apply has_prefix_split in Hl. rewrite Hl, <- app_assoc. apply has_prefix_app.
+      - right. cbn [orb] in Hp. split; [rewrite hp_l by exact HB0; exact Hl|]. apply has_prefix_split in Hp. rewrite Hp, <- app_assoc. apply has_prefix_app. }
+    destruct Hor as [->|[-> ->]]; exact Hgoal.
+  - apply orb_false_elim in Hp. destruct Hp as [Hpl Hpr].
+    apply andb_prop in Hsc. destruct Hsc as [Hsc Hrest]. apply andb_prop in Hsc. destruct Hsc as [Hsc H127]. apply andb_prop in Hsc. destruct Hsc as [H125 H35].
+    apply negb_true_iff in H125, H35.
+    assert (Hx : forall x, rest = [x] -> x <> 125).
+    { intros x Ex ->. rewrite Ex in Hrest. destruct f as [|f']; [discriminate|]. cbn in Hrest. discriminate. }
+    rewrite (hp_l rest R HB0), (hp_r rest R HB0 Hx), Hpl, Hpr, H125.
     assert (atEOF l1 = false) as ->.
-    { unfold atEOF. rewrite S1. destruct (rest ++ R) eqn:E; [|reflexivity]. destruct rest; [|discriminate]. cbn in E. subst R. contradiction. }
-    rewrite H35. cbn [orb]. assert ((b <=? 127) = true) as -> by lia.
-    destruct (IH fuel rest l1 _ R o V1 Hrest HB ltac:(cbn [app length] in Hf; lia)) as (fuel' & l' & E' & V' & L').
-    exists fuel', l'. split; [exact E'|]. split; [|exact L']. cbn [rev]. rewrite <- app_assoc. exact V'.
+    { unfold atEOF. rewrite S1, ER. destruct rest; reflexivity. }
+    rewrite H35, H127. cbn [orb].
+    destruct (IH fuel rest l1 _ R o V1 Hrest (conj HB0 (ex_intro _ bR (ex_intro _ R' (conj ER HbR)))) ltac:(rewrite app_length in Hf |- *; lia)) as (fuel' & l' & E' & V' & L').
+    exists fuel', l'. split; [exact E'|]. split; [|exact L']. rewrite <- Hrev. exact V'.
 Qed.
 
 Definition NoBr (R : bytes) : Prop := match R with 123 :: _ => False | 125 :: _ => False | _ => True end.
@@ -681,7 +762,8 @@ Lemma line_close f fuel crest l p (sp : bool) R' o :
 Proof.
   intros HV Hsc HN Hne H13 H32 Hf.
   assert (HB : Bdry ((if sp then [32] else []) ++ 125 :: R')).
-  { destruct sp; cbn [app Bdry]; [exact I|]. destruct R' as [|x R']; [exact I|]. destruct x as [|px]; [exact I|].
+  { split; [|destruct sp; eexists _, _; (split; [reflexivity|lia])].
+    destruct sp; cbn [app Bdry0]; [exact I|]. destruct R' as [|x R']; [exact I|]. destruct x as [|px]; [exact I|].
     cbn [NoBr] in HN. repeat (destruct px as [px|px|]; try exact I). exact HN. }
   destruct (scan_fwd f fuel crest l p _ o HV Hsc HB ltac:(lia)) as (fuel1 & l1 & E1 & V1 & L1). rewrite E1.
   assert (Hc : rev (rev crest ++ p) = rev p ++ crest) by (rewrite rev_app_distr, rev_involutive; reflexivity).
@@ -728,8 +810,11 @@ Proof.
   assert (Hc : rev (rev crest ++ p) = rev p ++ crest) by (rewrite rev_app_distr, rev_involutive; reflexivity).
   assert (Hh : head_not 13 (rev crest ++ p)) by (rewrite <- (rev_involutive (rev crest ++ p)), Hc; apply last_not_head; exact H13).
   assert (HB : Bdry (w ++ R)).
-  { unfold eol_start, no_eol_start in He. destruct w as [|b w]; [discriminate|]. cbn [app Bdry].
-    destruct b as [|pb]; [exact I|]. repeat (destruct pb as [pb|pb|]; try exact I; try discriminate). }
+  { split.
+    - unfold eol_start, no_eol_start in He. destruct w as [|b w]; [discriminate|]. cbn [app Bdry0].
+      destruct b as [|pb]; [exact I|]. repeat (destruct pb as [pb|pb|]; try exact I; try discriminate).
+    - destruct w as [|b w]; [discriminate|]. unfold WS in Hw. cbn [forallb] in Hw. apply andb_prop in Hw. destruct Hw as [Hb _].
+      destruct (ws_byte_facts b Hb) as (A & _). cbn [app]. eauto. }
   destruct (scan_fwd f fuel crest l p _ o HV Hsc HB Hf) as (fuel1 & l1 & E1 & V1 & L1). rewrite E1.
   assert (Hcase : (exists w', w = 10 :: w') \/ (exists w', w = 13 :: 10 :: w')).
   { unfold eol_start, no_eol_start in He. destruct w as [|b w]; [discriminate|].
@@ -765,20 +850,24 @@ Definition line_ok (cw : bytes * ws) : Prop := CmdN (fst cw) /\ WS (snd cw) /\ e
 Definition lastN_ok (last : option (bytes * bool)) : Prop :=
   match last with None => True | Some (c, sp) => CmdN c /\ (sp = false -> last_not 32 c = true) end.
 
-Lemma CmdN_ns c x : CmdN c -> ns (c ++ x).
+Lemma CmdN_ns c x : CmdN c -> (exists b t, x = b :: t /\ b < 128) -> ns (c ++ x).
 Proof.
-  intros (Hne & Hsc & _ & Hsp). destruct c as [|b c]; [congruence|]. cbn [cmd_scan] in Hsc.
-  repeat (apply andb_prop in Hsc; destruct Hsc as [Hsc ?]). apply N.ltb_lt in Hsc.
-  unfold ns in *. cbn [app]. rewrite dec1 in * by exact Hsc. exact Hsp.
+  intros (Hne & _ & _ & Hsp) (b & t & -> & Hb). unfold ns. rewrite decode_app_ascii by assumption. exact Hsp.
+Qed.
+
+Lemma eol_ws_ascii w x : WS w -> eol_start w = true -> exists b t, w ++ x = b :: t /\ b < 128.
+Proof.
+  intros Hw He. destruct w as [|b w]; [discriminate|]. unfold WS in Hw. cbn [forallb] in Hw. apply andb_prop in Hw. destruct Hw as [Hb _].
+  destruct (ws_byte_facts b Hb) as (A & _). cbn [app]. eauto.
 Qed.
 
 Lemma body_tail_ns lines last R' : Forall line_ok lines -> lastN_ok last -> ns (body_tail lines last R').
 Proof.
   intros Hl Hlast. unfold body_tail. destruct lines as [|[c w] lines].
   - cbn [map concat app]. destruct last as [[c sp]|]; cbn [last_text].
-    + destruct Hlast as [Hc _]. rewrite <- app_assoc. apply CmdN_ns. exact Hc.
+    + destruct Hlast as [Hc _]. rewrite <- app_assoc. apply CmdN_ns; [exact Hc|]. destruct sp; cbn [app]; eexists _, _; (split; [reflexivity|lia]).
     + cbn [app]. apply ns_cons; [lia|reflexivity].
-  - inversion Hl as [|? ? [Hc _] _]; subst. cbn [map concat fst snd]. rewrite <- !app_assoc. apply CmdN_ns. exact Hc.
+  - inversion Hl as [|? ? [Hc [Hw He]] _]; subst. cbn [map concat fst snd] in *. rewrite <- !app_assoc. apply CmdN_ns; [exact Hc|]. apply eol_ws_ascii; assumption.
 Qed.
 
 Lemma lines_fwd : forall lines last R' fuel l o, VP l [] (body_tail lines last R') o ->
